@@ -61,10 +61,11 @@ class CanonCompare(ast.NodeTransformer):
 
     def visit_If(self, node):
         """branch normal form: `if not c: B else: A` is read as `if c: A else: B` (plain if/else only, elif chains are left alone)"""
-        self.generic_visit(node)
+        # (decided on the test as written, before the negation normal form turns `not a == b` into `a != b`)
         while isinstance(node.test, ast.UnaryOp) and isinstance(node.test.op, ast.Not) and node.orelse \
                 and not (len(node.orelse) == 1 and isinstance(node.orelse[0], ast.If)):
             node = ast.copy_location(ast.If(test=node.test.operand, body=node.orelse, orelse=node.body), node)
+        self.generic_visit(node)
         # conjunction normal form: `if a: if b: X` (neither with an else) is read as `if a and b: X`
         while not node.orelse and len(node.body) == 1 and isinstance(node.body[0], ast.If) and not node.body[0].orelse:
             inner = node.body[0]
@@ -72,6 +73,14 @@ class CanonCompare(ast.NodeTransformer):
             for t in (node.test, inner.test):
                 vals.extend(t.values if isinstance(t, ast.BoolOp) and isinstance(t.op, ast.And) else [t])
             node = ast.copy_location(ast.If(test=ast.copy_location(ast.BoolOp(op=ast.And(), values=vals), node.test), body=inner.body, orelse=[]), node)
+        return node
+
+    def visit_UnaryOp(self, node):
+        """negation normal form: `not a == b`, `not a in b`, `not a is b` (and their duals) are read as the single comparison with the opposite operator"""
+        self.generic_visit(node)
+        c = node.operand
+        if isinstance(node.op, ast.Not) and isinstance(c, ast.Compare) and len(c.ops) == 1 and type(c.ops[0]) in EXACT_NEGATION:
+            return ast.copy_location(ast.Compare(left=c.left, ops=[EXACT_NEGATION[type(c.ops[0])]()], comparators=c.comparators), node)
         return node
 
     def visit_Compare(self, node):
